@@ -25,16 +25,25 @@ def check_cases(ck, cases, exes, model):
                 continue
             op = line.split()[0]; p = int(line.split()[2])
             bad_spec = False
+            lane_mis = False
             for v in vals:
                 if v == "LANE_MISMATCH":
-                    bad_spec = True; continue
-                if op == "muladd_shoup":
+                    if op == "bfly": lane_mis = True      # lazy residues: only the correspondence is at stake
+                    else: bad_spec = True
+                    continue
+                if op == "bfly":
+                    if not stream.startswith("bfly:wild"):
+                        try:
+                            ok = all(int(x) < 2 * p and int(x) % p == int(y) for x, y in zip(v.split(":"), s.split(":"))) and len(v.split(":")) == 2
+                        except ValueError: ok = False
+                        if not ok: lane_mis = True      # internal lazy invariant of the transform, decided by C02; here: correspondence
+                elif op == "muladd_shoup":
                     if not (v.isdigit() and int(v) < 2 * p and int(v) % p == int(s)): bad_spec = True
                 elif v != s:
                     bad_spec = True
             if bad_spec:
                 fails.append((b, stream, line, vals, m, s))
-            elif any(v != m for v in vals):
+            elif lane_mis or any(v != m for v in vals if v != "LANE_MISMATCH"):
                 corr_break.append((b, stream, line, vals, m, s))
     return fails, corr_break
 
